@@ -11,7 +11,7 @@ CHECKS = {
             "exhaustive small-scope enumeration (all multisets x permutations x source partitions) on the real analyzer vs reference bucket sums",
             "Every multiset of <=3 (quick) / <=4 (thorough) transactions over a 26-element alphabet covering every tag-precedence class, "
             "sign and zero, in every order and every split over two sources, is run through the real analyze_transactions and compared with "
-            "bucket sums computed from the property statement and with every other arrangement of the same multiset. Bounded-exhaustive, not a proof.",
+            "bucket sums computed from the property statement (the breakdown sums must equal the total those buckets define) and with every other arrangement of the same multiset. Bounded-exhaustive, not a proof.",
             "amounts are multiples of 0.25 (exact float sums); alphabet and size bound as stated; reference rule = property statement",
             "DESIGN.md 4/C06"),
     "C13": ("exploration",
@@ -33,14 +33,14 @@ CHECKS.update({
             "DESIGN.md 4/C01"),
     "C02": ("exploration",
             "exhaustive small-scope enumeration of rule files in both rule modes x transactions; union oracle for tags and neutrality (delete all tag-only rules) oracle",
-            "Every ordered sequence of <=3/4 rules over a 19-block alphabet (static, mixed-case and dynamic tags, special tags from two rules, a := binder next to a dynamic tag reading that name; tag-only rules that outrank categorising ones by specificity or "
+            "Every ordered sequence of <=3/4 rules over a 21-block alphabet (static, mixed-case and dynamic tags, two rules binding one let name to different constants behind the same {ref} tag, special tags from two rules, a := binder next to a dynamic tag reading that name; tag-only rules that outrank categorising ones by specificity or "
             "priority, share their match text, or carry subcategory/merchant) in first_match and most_specific mode, plus legacy CSV rows with pipe tags, on 120 transactions (incl. twins that differ only in custom fields): the tag "
             "set must equal the union of the resolved tags of all true rules (also after analyze_transactions), and removing every category-less rule must not change merchant/category/subcategory.",
             "dynamic tag values come from the real evaluator on the tag expression alone; tags compared as sets",
             "DESIGN.md 4/C02"),
     "C09": ("exploration",
             "exhaustive enumeration of all subsets x all permutations of <=K rules x transactions in most_specific mode against an AST-derived lexicographic rank key",
-            "Every ordered sequence of <=3 (quick) / <=4 (thorough) distinct rules from a 19-rule alphabet (incl. patterns holding the other quote character and a 2100-character pattern), plus every sequence of 4 / 5 rules over its 12 core rules, with two exact-tie pairs, a priority-0 rule, a same-category pair and a let-binding pair is evaluated on 30 transactions through "
+            "Every ordered sequence of <=3 (quick) / <=4 (thorough) distinct rules from a 20-rule alphabet (incl. patterns holding the other quote character, a 2100-character pattern and function names in other letter cases), plus every sequence of 4 / 5 rules over its 12 core rules, with two exact-tie pairs, a priority-0 rule, a same-category pair and a let-binding pair is evaluated on 30 transactions through "
             "engine.match, normalize_merchant, and normalize_merchant after the same file was first loaded in first_match mode; category must come from the top-ranked true "
             "categorising rule (ties to the earlier rule), subcategory from the top-ranked one that sets a subcategory, tags from all true rules; a legacy-CSV family (with an invalid row at every position) runs in most_specific mode through the library and `tally up --migrate`.",
             "rank key read from the AST; alphabet restricted to rules where a textual reading gives the same key (asserted at start-up)",
@@ -51,7 +51,7 @@ CHECKS.update({
     "C14": ("exploration",
             "exhaustive product enumeration of legacy CSV rule files x boundary transactions; differential execution of the real migration (CSV rules vs migrated merchants.rules vs load_csv_as_engine)",
             "Every one-row CSV over 24 regex patterns (incl. non-ASCII) x 20 modifier forms x 4 merchant names x category set/empty x 4 tag forms, and every ordered pair (quick) / triple (thorough) "
-            "over a 27-row reduced alphabet (incl. short rows and padded names), is migrated by the real _migrate_csv_to_rules in a scratch budget; the generated file must load and normalize_merchant must give the "
+            "over a 29-row reduced alphabet (incl. short rows, padded names, twin rows with a capturing group / a back-reference), is migrated by the real _migrate_csv_to_rules in a scratch budget; the generated file must load and normalize_merchant must give the "
             "same (merchant, category, subcategory, tag set) for every description x boundary amount x boundary date before and after, and through load_csv_as_engine.",
             "today fixed at 2025-06-15; three recorded known findings (relative dates, ' and ' inside a CSV regex, a comma inside a pipe-separated tag)",
             "DESIGN.md 4/C14"),
@@ -60,7 +60,7 @@ CHECKS.update({
 CHECKS.update({
     "C05": ("exploration",
             "exhaustive enumeration of cell tables x layouts x delimiters x header x decimal x sign; expected transactions computed from the cells by an independent reader; row-independence transition oracle",
-            "Every table of <=2 (quick) / <=3 (thorough) rows over 40 row kinds (incl. six dates only a strict reading of the format rejects) is rendered under 7 layouts x 6 delimiter kinds (incl. regex delimiters with optional and named groups) x header/no header x 2 decimal conventions x 5 sign modes "
+            "Every table of <=2 (quick) / <=3 (thorough) rows over 41 row kinds (incl. six dates only a strict reading of the format rejects and a date followed by more text) is rendered under 7 layouts x 6 delimiter kinds (incl. regex delimiters with optional and named groups) x header/no header x 2 decimal conventions x 5 sign modes "
             "and read by the real resolve_source_format + parse_generic_csv; the result must equal the transactions derived from the cell table, and parse(table) must equal the "
             "concatenation of parse(row) for each row; small tables are read again behind a UTF-8 byte-order mark and must read the same.",
             "reference reader is Decimal-based and follows the statement; ambiguous numerals / trailing date text / unrepresentable rows excluded and listed in assumptions",
@@ -84,7 +84,7 @@ CHECKS.update({
     "C07": ("model_checking",
             "explicit-state search over operation histories on the real process state: every history of <=D ops is replayed in a forked child, each observation executed in a grandchild forked from the reached state, compared with a fresh process",
             "All histories of length <=3 (quick) / <=4 (thorough) over 25 operations (loads of .rules/CSV/bad/no file in both modes, a reload that rewrites a file, whole in-process `tally up` runs on two budgets, classifications of 5 "
-            "transactions incl. two that differ only in a custom field, engine matches, 4 cache-colliding expressions, two fuzzy() thresholds on one text and a := binder / reader pair; one CSV file carries a relative-date row) are executed on the real module-level caches; on every "
+            "transactions incl. two that differ only in a custom field and one that makes a rule read a column a ragged supplemental row lacks, engine matches, 4 cache-colliding expressions, two fuzzy() thresholds on one text and a := binder / reader pair; one CSV file carries a relative-date row) are executed on the real module-level caches; on every "
             "(history, observation) transition the result must equal the same observation in a fresh process that performed only the last load (library observations made after a command-line run, which loads rules of its own, are not judged), and rules / supplemental rows / "
             "caller's field dict must be unchanged. States are histories (no abstraction), so every trace is an execution of the implementation.",
             "fresh process = fork of a worker that imported tally and never loaded or evaluated anything; depth- and alphabet-bounded",
@@ -94,7 +94,7 @@ CHECKS.update({
 CHECKS.update({
     "C17": ("model_checking",
             "explicit-state BFS over layout-preserving edits of seed files (text-deduplicated) with the real loader as transition function; exhaustive single-point corruptions judged by a strict structural reader; corrupt budgets through forked CLI runs",
-            "From 196 merchants seeds and 32 views seeds every text reachable by <=2 layout edits (<=3 for one-section seeds in thorough) is parsed by the real loader and must yield "
+            "From the merchants seeds (1-2 of 8 sections x 4 preambles, incl. a let name bound twice) and 32 views seeds every text reachable by <=2 layout edits (<=3 for one-section seeds in thorough) is parsed by the real loader and must yield "
             "exactly the seed's structure (~0.9M states quick); edits include comments holding Unicode / C0 line-separator characters. Every single-line deletion, structural-character deletion, unknown key, malformed let/field/priority/match/filter and "
             "5 invalid-expression kinds on every seed must be rejected with the offending line or its header (or read as the strict reader reads it); every seed written to disk as LF / CRLF with and without a BOM must load to the same reading; 8 corruption kinds x "
             "`tally up` (4 forms incl. --quiet) / `diag` / `discover` (2) / `explain` (3) must show the error and must not behave as with an empty rules file.",
@@ -105,7 +105,7 @@ CHECKS.update({
 CHECKS.update({
     "C15": ("fault_enumeration",
             "exhaustive crash-point x torn-write and single-OSError enumeration over the recorded file-system effect log of the real migration code, with recovery (re-run) oracle",
-            "For `tally up --migrate`, `tally init` and run_migrations on 36 budget variants (incl. half-migrated ones whose ./tally already holds same-named files) the command runs under a harness-side file-system interposer that numbers every create / "
+            "For `tally up --migrate`, `tally init` and run_migrations on 37 budget variants (files carry one fixed time stamp; incl. half-migrated ones whose ./tally already holds same-named files and an earlier backup of exactly the live CSV's size) the command runs under a harness-side file-system interposer that numbers every create / "
             "flush / append / rename / mkdir / remove; for every effect k the run is repeated with a crash right after k (plus data torn to half / nothing when k lands data) and with an "
             "OSError instead of k (for a step issued by shutil.move also with the whole move failing, copy fallback included). Each resulting tree must keep every user file's bytes, must classify the probe statement with the user's rules either directly or after one fault-free "
             "re-run of the same command, and must never classify everything as Unknown while the rules exist on disk. The interposer is checked for transparency and for unowned effects "
@@ -114,8 +114,8 @@ CHECKS.update({
             "DESIGN.md 4/C15"),
     "C20": ("model_checking",
             "explicit-state level-synchronous BFS over budget directory trees with the real CLI commands as transitions (forked processes), tree-hash visited set, frame-condition invariant on every transition",
-            "From 16 initial budget trees (zero-length configuration files, a user's own .gitignore and .skipped.csv, a settings file naming a custom rules file, new/old layout, missing views/rules, a views_file setting naming an absent file, legacy CSV with rules / header only / with existing backups incl. gaps in their numbering and unreferenced merchants.rules, CRLF and "
-            "trailing-blank settings) all 14 commands (up in 4 output modes and once started inside the config directory, explain x2, discover x2, diag, inspect, init, init <dir>, up --migrate) are applied to every reachable tree "
+            "From 17 initial budget trees (a second settings file next to the main one, zero-length configuration files, a user's own .gitignore and .skipped.csv, a settings file naming a custom rules file, new/old layout, missing views/rules, a views_file setting naming an absent file, legacy CSV with rules / header only / with existing backups incl. gaps in their numbering and unreferenced merchants.rules, CRLF and "
+            "trailing-blank settings) all 16 commands (up under a second settings file with and without --migrate, up in 4 output modes and once started inside the config directory, explain x2, discover x2, diag, inspect, init, init <dir>, up --migrate) are applied to every reachable tree "
             "up to depth 3 (quick) / 6 or fixpoint (thorough); read-only commands must leave every file outside the output location byte-identical and create nothing outside it; init / "
             "--migrate must keep every user file (settings may only grow, the legacy CSV may only move to a fresh .bak* with identical bytes).",
             "non-interactive runs; bytes of tally-created files and the output location are not judged",
@@ -160,8 +160,8 @@ CHECKS.update({
 
 CHECKS.update({
     "C10": ("exploration",
-            "exhaustive enumeration of views files (all sequences of <=K views over 32 filters) x merchant sets (<=3 of 15 payment histories) through the real analyse/classify chain against reference primitives recomputed from raw transactions; independence and totals transition oracles",
-            "Every sequence of <=2 views over 32 filters incl. chained comparisons (thorough: also <=3 over a 10-filter sub-alphabet) x every set of <=3 merchants from 15 payment histories incl. a 29 February payment and twelve equal payments runs through "
+            "exhaustive enumeration of views files (all sequences of <=K views over 33 filters) x merchant sets (<=3 of 15 payment histories) through the real analyse/classify chain against reference primitives recomputed from raw transactions; independence and totals transition oracles",
+            "Every sequence of <=2 views over 33 filters incl. chained comparisons and two views sharing filter text and a local variable name (thorough: also <=3 over a 10-filter sub-alphabet) x every set of <=3 merchants from 15 payment histories incl. a 29 February payment and twelve equal payments runs through "
             "analyze_transactions -> classify_by_sections -> compute_section_totals; each (view, merchant) membership must equal the filter evaluated by mc/ref/views.py over the "
             "merchant's own raw payments (months, total, population cv, tags, by(), aggregates, period(), global and view-local variables), merchants tagged income/transfer/"
             "investment in any letter case never appear, an unevaluable filter excludes, a view's membership must equal its membership when it is the only view, and each view's "
@@ -173,7 +173,7 @@ CHECKS.update({
 CHECKS.update({
     "C12": ("exploration",
             "exhaustive enumeration of transaction subsets x views x output formats through the real analyser and all renderers; the HTML is decoded with html.parser + json and compared with the analysed data; printed figures compared with reference bucket sums",
-            "Every subset of <=3 (quick) / <=4 (thorough) of 25 adversarial transactions (three-decimal amounts, colliding merchant ids, </script>, quotes, backslashes, placeholder text, braces, "
+            "Every subset of <=3 (quick) / <=4 (thorough) of 27 adversarial transactions (two that no categorising rule matched - one with a pattern-less match record, one with none -, three-decimal amounts, colliding merchant ids, </script>, quotes, backslashes, placeholder text, braces, "
             "non-ASCII, refunds, negative income, transfers, investment, zero-net merchant, two special tags on one transaction, a name equal to a suffixed id, </SCRIPT> in other spellings, falsy and date-valued extra fields) with and without views is rendered as HTML (embedded and separate files), "
             "JSON, Markdown (verbosity 0-2), text summary and views summary; no renderer may raise, every printed income/spending/credits/transfer/cash-flow figure must equal "
             "the analysed one at that format's precision, and the decoded HTML payload must contain every merchant and every transaction exactly once with identical fields and "
